@@ -30,6 +30,12 @@ Dollar == 36
 
 IsUpperChar(c) == Row[c].up          \* public chars::is_upper_case
 
+\* An atom's needle is a Utf32String (C17): text that is not pure ASCII is stored as one code point per
+\* extended grapheme cluster, so "the atom's characters" - what the escape, case and normalisation rules
+\* talk about - are the cluster heads, not the raw code points.
+GR == INSTANCE Graphemes
+Stored(w) == IF \A k \in 1..Len(w) : w[k] < 128 THEN w ELSE GR!ClusterHeads(w)
+
 (***************************************************************************)
 (* splitting                                                               *)
 (***************************************************************************)
@@ -71,7 +77,7 @@ Finish(lit, kind, neg, case, norm) ==
 
 \* Atom::new: no markers
 NewAtom(w, kind, escape, case, norm) ==
-  Finish(IF escape THEN Unescape(w, 1) ELSE w, kind, FALSE, case, norm)
+  LET sw == Stored(w) IN Finish(IF escape THEN Unescape(sw, 1) ELSE sw, kind, FALSE, case, norm)
 
 \* Atom::parse: markers
 ParseAtom(w, case, norm) ==
@@ -86,7 +92,7 @@ ParseAtom(w, case, norm) ==
       w3 == IF litD THEN Chop(w2, 2) ELSE IF markD THEN Chop(w2, 1) ELSE w2
       k2 == IF markD THEN (IF k1 = "F" THEN "O" ELSE "E") ELSE k1
       k3 == IF neg /\ k2 = "F" THEN "S" ELSE k2
-      lit == Unescape(w3, 1) \o (IF litD THEN <<Dollar>> ELSE <<>>) IN
+      lit == Unescape(Stored(w3), 1) \o (IF litD THEN <<Dollar>> ELSE <<>>) IN
   Finish(lit, k3, neg, case, norm)
 
 NonEmpty(as) == SelectSeq(as, LAMBDA a : a.needle # <<>>)
